@@ -9,6 +9,7 @@
 -/
 import IocProofs.Lemmas.Placeholder
 import IocProofs.Lemmas.PlaceholderLayers
+import IocProofs.Lemmas.PlaceholderSources
 import IocProofs.Lemmas.SemStages
 import IocProofs.Lemmas.TagRound
 import IocProofs.Lemmas.SemConfDefault
@@ -473,6 +474,85 @@ example : process cacheCfg (ofString "#{60*60}") = .value (ofString "#{60*60}") 
 example : Ioc.Tag.WFpre Ioc.Tag.cComma Ioc.Tag.isLB Ioc.Tag.isRB (ofString "#{'cache-'+'eu'}") 0 = true := by decide
 example : processText cacheCfg (ofString "${cache.ttl},validate=min=1") = some (ofString "${cache.ttl}", .value (ofString "#{60*60}")) := by
   decide +kernel
+
+/-! ### sources merged after the start (ninth round): the configured value is the one the binder holds NOW
+
+    `Conf` is the library's default configure as `C16_code_configure_Default` reads it off the source: a loader list and the
+    viper binder itself.  Configure.SetConfig hands a document straight to the binder (viper.MergeConfig into what it holds),
+    AddLoaders + Initialize loads every loader again; a lookup is a function of the binder's two layers as they are then -
+    nothing between the configure and the binder remembers what a key resolved to before. -/
+
+/-- A second resolution of a tag, after any sequence of SetConfig / AddLoaders + Initialize / Set, is a first resolution
+    under the layers those steps leave; the first one is the resolution under the base document. -/
+theorem C16_sources_resolve_again_current (base : Cfg) (steps : List Step) (tags : List Bytes) :
+    (resolveAround base steps tags).2 = tags.map (processL ((Conf.start base).steps steps).layers) ∧
+      (resolveAround base steps tags).1 = tags.map (process (mergeDoc [] base)) := by
+  refine ⟨rfl, ?_⟩
+  simp only [resolveAround, start_layers]
+  exact List.map_congr_left (fun s _ => processL_no_set _ s)
+
+/-- A document that says `key: v` (the nested form of the dotted path, as insensitiviseMap leaves it), merged with SetConfig
+    at ANY point of a history: unless the binder holds a map at that very path (viper keeps a map against a scalar) and unless
+    a Set stands in front of the path, the lookup of the key - in any letter case - answers v from then on, whatever it
+    answered before. -/
+theorem C16_merged_value_seen (c : Conf) (key : Bytes) (hk : key ≠ []) (v : CVal) (doc : Cfg)
+    (hdoc : lowerKeysM doc = pathDoc (splitDots (lower key)) v)
+    (ho : searchOver c.layers.over (splitDots (lower key)) = none) (hs : shadowed c.layers.over (splitDots (lower key)) = false)
+    (hm : mapAt c.layers.conf (splitDots (lower key)) = false) :
+    (c.step (.setConfig doc)).layers.get key = .val (nilToNone v) := by
+  rw [step_setConfig_layers, get_of_conf ⟨c.layers.over, mergeDoc c.layers.conf doc⟩ key hk ho hs]
+  simp only [mergeDoc, hdoc]
+  exact search_merge_pathDoc _ (splitDots_ne_nil _) v _ hm
+
+/-- … the same for a source added with AddLoaders and loaded by the next Initialize: it is merged LAST, after every loader
+    the configure already had, so the condition speaks about what those leave. -/
+theorem C16_added_source_seen (c : Conf) (key : Bytes) (hk : key ≠ []) (v : CVal) (doc : Cfg)
+    (hdoc : lowerKeysM doc = pathDoc (splitDots (lower key)) v)
+    (ho : searchOver c.layers.over (splitDots (lower key)) = none) (hs : shadowed c.layers.over (splitDots (lower key)) = false)
+    (hm : mapAt (c.loaders.foldl mergeDoc c.layers.conf) (splitDots (lower key)) = false) :
+    (c.step (.addLoader doc)).layers.get key = .val (nilToNone v) := by
+  rw [step_addLoader_layers, get_of_conf ⟨c.layers.over, mergeDoc (c.loaders.foldl mergeDoc c.layers.conf) doc⟩ key hk ho hs]
+  simp only [mergeDoc, hdoc]
+  exact search_merge_pathDoc _ (splitDots_ne_nil _) v _ hm
+
+/-- … and the placeholder: after the merge `${key}` / `${key:default}` is replaced by the merged value, formatted - not by
+    what the key resolved to before the merge, not by the default. -/
+theorem C16_merged_value_replaces (c : Conf) (content key : Bytes) (dflt : Option Bytes) (v : CVal) (doc : Cfg) (hk : key ≠ [])
+    (hsp : splitColon content = (key, dflt)) (hdoc : lowerKeysM doc = pathDoc (splitDots (lower key)) v)
+    (ho : searchOver c.layers.over (splitDots (lower key)) = none) (hs : shadowed c.layers.over (splitDots (lower key)) = false)
+    (hm : mapAt c.layers.conf (splitDots (lower key)) = false) (hp : isAbsent (some v) = false) :
+    replL (c.step (.setConfig doc)).layers content = .ok (format v) := by
+  have hv : nilToNone v = some v := by cases v <;> simp_all [nilToNone, isAbsent]
+  rw [step_setConfig_layers]
+  apply replL_of_conf ⟨c.layers.over, mergeDoc c.layers.conf doc⟩ content key dflt v hk hsp ho hs _ hp
+  simp only [mergeDoc, hdoc]
+  rw [← hv]
+  exact search_merge_pathDoc _ (splitDots_ne_nil _) v _ hm
+
+def regionCfg : Cfg := [(ofString "region", .str (ofString "us")), (ofString "greeting", .str (ofString "hello from ${region}"))]
+def regionTags : List Bytes := [ofString "${region:none}", ofString "${greeting}", ofString "/srv/${region:none}/${REGION}.log"]
+def regionEu : Cfg := [(ofString "region", .str (ofString "eu"))]
+
+-- the hypotheses of C16_merged_value_seen hold for the running configure of the example and the document `region: eu`
+example : lowerKeysM regionEu = pathDoc (splitDots (lower (ofString "REGION"))) (.str (ofString "eu")) := by rfl
+example : searchOver (Conf.start regionCfg).layers.over (splitDots (lower (ofString "REGION"))) = none ∧
+    shadowed (Conf.start regionCfg).layers.over (splitDots (lower (ofString "REGION"))) = false ∧
+    mapAt (Conf.start regionCfg).layers.conf (splitDots (lower (ofString "REGION"))) = false := by decide
+example : resolveAround regionCfg [.setConfig regionEu] regionTags =
+    ([.value (ofString "us"), .value (ofString "hello from us"), .value (ofString "/srv/us/us.log")],
+     [.value (ofString "eu"), .value (ofString "hello from eu"), .value (ofString "/srv/eu/eu.log")]) := by decide +kernel
+example : resolveAround regionCfg [.addLoader regionEu] regionTags =
+    ([.value (ofString "us"), .value (ofString "hello from us"), .value (ofString "/srv/us/us.log")],
+     [.value (ofString "eu"), .value (ofString "hello from eu"), .value (ofString "/srv/eu/eu.log")]) := by decide +kernel
+-- Initialize loads the base document again: after SetConfig(region: eu), a loader that does not mention the key brings `us` back
+example : (resolveAround regionCfg [.setConfig regionEu, .addLoader [(ofString "other", .str (ofString "x"))]] regionTags).2 =
+    [.value (ofString "us"), .value (ofString "hello from us"), .value (ofString "/srv/us/us.log")] := by decide +kernel
+-- what was Set stays in front of every source
+example : (resolveAround regionCfg [.set (ofString "Region") (.str (ofString "ap")), .setConfig regionEu] regionTags).2 =
+    [.value (ofString "ap"), .value (ofString "hello from ap"), .value (ofString "/srv/ap/ap.log")] := by decide +kernel
+-- viper keeps a map against a scalar (the condition `mapAt … = false` of the theorem is needed)
+example : (resolveAround [(ofString "region", .map [(ofString "name", .str (ofString "us"))])] [.setConfig regionEu]
+    [ofString "${region.name}", ofString "${region}"]).2 = [.value (ofString "us"), .value (ofString "{\"name\":\"us\"}")] := by decide +kernel
 
 /-- configure.Default / NewConfigure / the setters, regenerated (interpretation Ioc.SemConfDefault): the default configure has
     ONE loader, the command-line loader over os.Args, and its binder is the viper binder for yaml ITSELF (no layer between
